@@ -257,5 +257,104 @@ func TestRegistryRandom(t *testing.T) {
 		}
 		w.write(J{"ev": "End", "trace": k, "leaked": leaked})
 	}
+	// Stop while a poll is in progress (both registries, a few poll frequencies)
+	for k2 := 0; k2 < 6; k2++ {
+		k2 := k2
+		var line J
+		func() {
+			defer func() { recover() }()
+			synctest.Test(t, func(t *testing.T) {
+				freq := 3 + k2%3
+				var reg core.MetricRegistry
+				if k2%2 == 0 {
+					rr, err := gmreg.NewGoMetricsMetricRegistry(gometrics.NewRegistry(), "", "x.", ticks(freq))
+					if err != nil {
+						t.Fatal(err)
+					}
+					reg = rr
+				} else {
+					cl, err := statsd.NewWithWriter(&nopCloser{}, statsd.WithoutTelemetry())
+					if err != nil {
+						t.Fatal(err)
+					}
+					defer cl.Close()
+					rr, err := ddreg.NewMetricRegistryWithClient(cl, "x.", ticks(freq))
+					if err != nil {
+						t.Fatal(err)
+					}
+					reg = rr
+				}
+				var mu sync.Mutex
+				hold := make(chan struct{})
+				inPoll := false
+				stopReturned := false
+				late := 0
+				kill := false
+				supplier := func(block bool) core.MetricSupplier {
+					return func() (float64, bool) {
+						mu.Lock()
+						if kill {
+							mu.Unlock()
+							if f := reflect.ValueOf(reg).Elem().FieldByName("mu"); f.IsValid() && f.CanAddr() {
+								(*sync.Mutex)(unsafe.Pointer(f.UnsafeAddr())).Unlock()
+							}
+							runtime.Goexit()
+						}
+						if stopReturned {
+							late++
+						}
+						first := block && !inPoll
+						if first {
+							inPoll = true
+						}
+						mu.Unlock()
+						if first {
+							<-hold
+						}
+						return 1, true
+					}
+				}
+				reg.RegisterGauge("a", supplier(true))
+				reg.RegisterGauge("b", supplier(true))
+				reg.RegisterGauge("c", supplier(true))
+				reg.Start()
+				time.Sleep(ticks(freq))
+				synctest.Wait() // the poller is inside the first supplier it called
+				stopDone := make(chan struct{})
+				go func() {
+					reg.Stop()
+					mu.Lock()
+					stopReturned = true
+					mu.Unlock()
+					close(stopDone)
+				}()
+				synctest.Wait()
+				mu.Lock()
+				whilePolling := stopReturned
+				mu.Unlock()
+				close(hold)
+				synctest.Wait()
+				time.Sleep(ticks(3 * freq))
+				synctest.Wait()
+				after := false
+				select {
+				case <-stopDone:
+					after = true
+				default:
+				}
+				mu.Lock()
+				line = J{"ev": "StopRace", "trace": 100000 + k2, "returnedwhilepolling": whilePolling, "late": late, "returnedafter": after, "kind": []string{"gometrics", "datadog"}[k2%2]}
+				kill = true
+				mu.Unlock()
+				for g := 0; g < 4; g++ {
+					time.Sleep(ticks(2 * freq))
+					synctest.Wait()
+				}
+			})
+		}()
+		if line != nil {
+			w.write(line)
+		}
+	}
 	_ = fmt.Sprint
 }
